@@ -47,15 +47,17 @@ struct WaitList { _p: u8 }
 impl WaitList {
     uninterp spec fn linked(&self) -> nat;
     uninterp spec fn notified(&self) -> nat;
+    // how many guards were linked when the head was last notified
+    uninterp spec fn notified_with(&self) -> nat;
     // what WaitGuard's Drop does (`drop(wait_guard)`)
     #[verifier::external_body]
     fn unlink(&mut self, guard: WaitGuard)
         requires old(self).linked() >= 1,
-        ensures final(self).linked() == old(self).linked() - 1, final(self).notified() == old(self).notified(),
+        ensures final(self).linked() == old(self).linked() - 1, final(self).notified() == old(self).notified(), final(self).notified_with() == old(self).notified_with(),
     { unimplemented!() }
     #[verifier::external_body]
     fn notify_head(&mut self)
-        ensures final(self).linked() == old(self).linked(), final(self).notified() == old(self).notified() + 1,
+        ensures final(self).linked() == old(self).linked(), final(self).notified() == old(self).notified() + 1, final(self).notified_with() == old(self).linked(),
     { unimplemented!() }
 }
 // the fallible middle of a write, in either shape: any result
@@ -97,9 +99,11 @@ fn write_after_link(kvs: &mut KeyValueStore, mut batch: WriteBatch, memtable: Me
         // whatever became of the batch: the guard is gone and the next head has been told
         final(kvs).wait_list.linked() == old(kvs).wait_list.linked() - 1,
         final(kvs).wait_list.notified() >= old(kvs).wait_list.notified() + 1,
+        // ... AFTER the guard was unlinked (a notification sent while the writer is still head wakes the writer itself)
+        final(kvs).wait_list.notified_with() == old(kvs).wait_list.linked() - 1,
 //@ >>
 //@ loop 0 <<
-        invariant kvs.wait_list.linked() == old(kvs).wait_list.linked(), kvs.wait_list.notified() == old(kvs).wait_list.notified(),
+        invariant kvs.wait_list.linked() == old(kvs).wait_list.linked(), kvs.wait_list.notified() == old(kvs).wait_list.notified(), kvs.wait_list.notified_with() == old(kvs).wait_list.notified_with(),
 //@ >>
 //@ end
 
